@@ -291,6 +291,29 @@ func (m *tableMon) preLight() (int, string) {
 	return gc, ""
 }
 
+// pendingAction registers a call that runs interleaved with the engine: between invoke and return
+// the monitors must treat it as possibly accepted.
+func (m *tableMon) pendingAction(id, action string, amt int64, gc int) *actRec {
+	h := m.hands[gc]
+	if h == nil {
+		h = m.cur
+	}
+	if h == nil {
+		return nil
+	}
+	h.actionsP = append(h.actionsP, &actRec{id: id, action: action, amt: amt, ok: true, atMs: m.c.NowMs(), evKey: "?", pending: true})
+	return h.actionsP[len(h.actionsP)-1]
+}
+
+func (m *tableMon) finishPending(a *actRec, err error) {
+	if a == nil {
+		return
+	}
+	a.pending = false
+	a.ok = err == nil
+	a.atMs = m.c.NowMs()
+}
+
 func (m *tableMon) markNotAtomic(gc int) {
 	if h := m.hands[gc]; h != nil {
 		h.recordUnreliable = true
